@@ -92,13 +92,16 @@ theorem loadFile_of_ok (reg r : Registry) (f : SrcFile) (h : tryLoad reg f = .ok
   unfold loadFile
   rw [foldlM_addTop_ok f.stmts reg r h]
 
+/-- The answer of the Lean front end as `Parse` returns it: the new registry when the text was
+accepted, else the reason. -/
+def ofLoadText : Registry × LoadResult → Except Reject Registry
+  | (r, .accepted) => .ok r
+  | (_, res) => .error (.text res)
+
 /-- `Modules.Parse` of either kind of source: the new registry, or why nothing was loaded. -/
 def tryLoadSrc (reg : Registry) : Src → Except Reject Registry
   | .stmts f buildOk => if !buildOk then .error .build else tryLoad reg f
-  | .text name text =>
-    match loadText reg name text with
-    | (r, .accepted) => .ok r
-    | (_, res) => .error (.text res)
+  | .text name text => ofLoadText (loadText reg name text)
 
 /-- `Modules.Parse` as a function on registries: a rejected source leaves the registry as it was. -/
 def loadSrc (reg : Registry) (src : Src) : Registry :=
